@@ -18,6 +18,9 @@ FORMULAS = [
     "y ~ x", "y ~ x + f + f:x", "y ~ 0 + f:g", "y ~ poly(x, 2, raw=True) + g", "y ~ C(k) + x:C(k)", "f ~ x", "g[t] ~ x + f", "x + f",
     "y ~ w12 + x", "y ~ 0 + w12", "y ~ x + q1 + f", "y ~ q1", "y ~ (1|w12)",
     "y ~ x + (1|g)", "y ~ (x|g)", "y ~ (f|g)", "y ~ (0 + f|g)", "y ~ (1|g) + (x|h)", "y ~ (x|g) + (f|h) + (1|g:h)", "y ~ (0 + f:x|g)", "y ~ f + (x + f|g)", "y ~ (poly(x, 2, raw=True)|g)",
+    "y ~ (1|g) + (1|h) + (0 + x|g)", "y ~ (x|g + h)", "y ~ 0 + g:poly(x, 2, raw=True)",
+    "y ~ C(kf) + x", "y ~ (1|kf)", "y ~ C(kb):x",
+    "y ~ 0 + f + yr", "y ~ yr", "y ~ f:yr",  # an all-integer matrix (yr: calendar years and other ints beyond one byte)
 ]
 CHAINS = [[], ["seen"], ["unseen"], ["seen", "unseen"], ["unseen", "seen"], ["unseen", "unseen"]]
 
@@ -172,6 +175,8 @@ def harness(env, case):
         df["w12"] = [f"L{(i * 5) % 12:02d}" for i in range(n)] if n >= 12 else [f"L{i:02d}" for i in range(n)]
     if "q1" in formula:
         df["q1"] = ["only"] * n
+    if "yr" in formula:
+        df["yr"] = np.array([(2019, 127, 128, -129, -128, 300, 0, 70000, -40000)[i % 9] + (i // 9) for i in range(n)], dtype=np.int64)
     config["EVAL_UNSEEN_CATEGORIES"] = "error"
     try:
         with env.running():
